@@ -29,6 +29,7 @@ WIDE = ['中', 'あ', 'Ａ']          # double-width (in uc.c dwchars and everyw
 NARROW2 = ['é', 'ß', 'λ']       # single-width, multi-byte
 ATTR_SHIFT = 1 << 21
 WFIX = True
+SPLIT = True
 NQUICK = 260
 
 # --------------------------------------------------------------------------------------------
@@ -259,6 +260,12 @@ def gen_case(rng, quick, k):
     g = Gen(rng, rows, cols, n)
     natoms = rng.range(3, 8 if quick else 14)
     atoms = [g.atom(PROFILES[prof]) for _ in range(natoms)]
+    if SPLIT and k % 9 == 4:
+        # split windows: ^Ws first (upper window active), then motions and scrolls only; odd heights included
+        rows = rng.choice([6, 7, 8, 9, 11, 24, 25])
+        g = Gen(rng, rows // 2, cols, n)
+        atoms = [b'\x17s'] + [g.atom([55, 100, 100, 100, 100, 100, 100]) for _ in range(natoms)]
+        prof = 'split'
     opts = []
     if rng.chance(1, 3):
         opts.append('se hll')
@@ -491,9 +498,24 @@ def eval_prefix(exe, model, case, i):
     return judge(exe, model, case, i, a, b, t, None)
 
 
+def lower_window_ok(rows_cp, buf, cols):
+    """is the list of rows a window of buf for some top/left (no cursor involved)?"""
+    hh = len(rows_cp)
+    maxw = max([0] + [sum(w for _, _, w in layout(l)) for l in buf]) + 2
+    for left in range(0, maxw + 1):
+        for top in range(0, max(len(buf), 1)):
+            if window(buf, top, left, hh, cols) == rows_cp:
+                return True
+    return False
+
+
 def judge(exe, model, case, i, a, b, t, snaps):
     rows, cols = case['rows'], case['cols']
     h = rows - 1
+    split = i >= 1 and case['atoms'][0] == '1773'
+    if split:
+        half = rows // 2            # vi_switch: upper window = rows [0, half): half-1 text rows + its message row
+        h = half - 1
     for r in (a, b, t):
         if r.timed_out or r.rc != 0:
             return {'status': 'skip', 'what': 'run did not finish (rc=%s timeout=%s)' % (r.rc, r.timed_out)}
@@ -519,6 +541,17 @@ def judge(exe, model, case, i, a, b, t, snaps):
         return out
     v, top, left = explain(st, buf, xrow, xoff, h, cols)
     out['top'], out['left'] = top, left
+    if v is None and split:
+        # the lower window: rows [half, rows-1) show a window of the (same, unchanged) buffer; its message row is the last row
+        low, low2 = st['cp'][half:rows - 1], st2['cp'][half:rows - 1]
+        if not lower_window_ok(low, buf, cols):
+            out.update(status='fail', what='split windows: the rows of the lower window are not a window of the buffer lines',
+                       observed=[cells_str(r) for r in st['cp'][:rows]], expected='upper window: %d text rows + message row, lower window: %d text rows + message row' % (half - 1, rows - half - 1))
+            return out
+        if low != low2:
+            out.update(status='fail', what='split windows: a forced full repaint (^L) changes the rows of the lower window',
+                       observed=[cells_str(r) for r in low], expected=[cells_str(r) for r in low2])
+            return out
     if v is None:
         # (iii) a forced full repaint draws the same window with the same attributes; it may only choose another window
         # (the steering column is recomputed from the cursor) if that one satisfies (i) and (ii) as well
